@@ -168,6 +168,7 @@ class XPathContext:
             tree = getattr(node, 'tree', None)
             if tree is not None and tree.schema is not None:
                 cast(XPathNode, node).clear_types()
+                tree.schema = None
 
         self.variables = dict[str, ta.ValueType]()
         if variables is not None:
@@ -232,10 +233,11 @@ class XPathContext:
     def schema(self, schema: Optional[ta.SchemaProxyType]) -> None:
         self._schema = schema
         if schema is None:
-            if self.root is not None:
-                self.root.clear_types()
-            elif isinstance(self.item, XPathNode):
-                self.item.clear_types()
+            node = self.root if self.root is not None else self.item
+            if isinstance(node, XPathNode):
+                node.clear_types()
+                if getattr(node, 'tree', None) is not None:
+                    node.tree.schema = None  # type: ignore[union-attr]
         elif hasattr(schema, 'is_assertion_based'):
             node = self.root if self.root is not None else self.item
             if isinstance(node, XPathNode):
